@@ -87,4 +87,8 @@ fn render_depth_sort_orders_by_key() {
     }
 }
 
+// Tried and dropped: render() itself on a tiny scene (one concrete triangle wholly inside the frustum, a counting target, symbolic
+// vertex order / cull mode / mirrored viewport, no-std build so that Stats has no timer) to decide the cull arms and the stats
+// bookkeeping: 25 min and 7.8 GB without a verdict (the Vec-based vertex/triangle/clip buffers again). The cull arms stay [U] (L4).
+
 include!("gen/dispatch_render.rs");
